@@ -58,6 +58,19 @@ func (ex *Exec) callValue(fr *Frame, st *State, cc *ssa.CallCommon, fv Val, args
 	if cc.IsInvoke() {
 		recv := fv
 		key := cc.Method.FullName()
+		{
+			msig := cc.Method.Type().(*types.Signature)
+			ns, ts := []string{"this"}, []types.Type{cc.Value.Type()}
+			for i := 0; i < msig.Params().Len(); i++ {
+				n := msig.Params().At(i).Name()
+				if n == "" || n == "_" {
+					n = fmt.Sprintf("arg%d", i)
+				}
+				ns = append(ns, n)
+				ts = append(ts, msig.Params().At(i).Type())
+			}
+			ex.checkAsserts(fr, st, key, ns, ts, append([]Val{recv}, args...), pos)
+		}
 		if iv, ok := recv.(*IfaceV); ok && iv.Dyn != nil {
 			// dynamic type known on this path: static dispatch
 			if m := ex.prog.LookupMethod(iv.Dyn, cc.Method.Pkg(), cc.Method.Name()); m != nil {
@@ -96,9 +109,63 @@ func (ex *Exec) callStatic(fr *Frame, st *State, fn *ssa.Function, args []Val, p
 	return ex.callStaticBind(fr, st, fn, args, nil, pos, sig)
 }
 
+// checkAsserts discharges the "assert @callee" clauses of the function under
+// proof at a call of that callee: the expression sees the callee's parameters
+// by name and the caller's locals.
+func (ex *Exec) checkAsserts(fr *Frame, st *State, key string, names []string, ptypes []types.Type, args []Val, pos token.Pos) {
+	c := ex.lib.Contracts[ex.curKey]
+	if c == nil {
+		return
+	}
+	var env *CEnv
+	for _, cl := range c.Clauses {
+		if cl.Kind != "assert" || !tagActive(cl.Tags, ex.prop) || !strings.Contains(key, cl.Names[0]) {
+			continue
+		}
+		if env == nil {
+			env = ex.localEnv(fr, st)
+			if fr.depth > 0 && ex.topFrame != nil {
+				// parameters of the function under proof stay visible inside inlined callees and closures
+				for i, p := range ex.topFrame.fn.Params {
+					if _, dup := env.vars[p.Name()]; !dup && i < len(ex.topFrame.args) {
+						env.vars[p.Name()] = TV{ex.topFrame.args[i], p.Type()}
+					}
+				}
+			}
+			for i, n := range names {
+				if i < len(args) {
+					env.vars[n] = TV{args[i], ptypes[i]}
+				}
+			}
+		}
+		label := cl.Label
+		if label == "" {
+			label = fmt.Sprint(cl.Ord)
+		}
+		ord := ex.nextCallOrd(fr, "assert:"+cl.Names[0]+":"+label, pos)
+		g := ex.evalBool(cl.E, env)
+		ex.addObl(st, "assert", ex.oblName("assert", fmt.Sprintf("#%s@%s#%d", label, lastSeg(cl.Names[0]), ord)), g, pos, cl.Text)
+		cl.Reached = true
+	}
+}
+
+func fnParamInfo(fn *ssa.Function) ([]string, []types.Type) {
+	var names []string
+	var ts []types.Type
+	for _, p := range fn.Params {
+		names = append(names, p.Name())
+		ts = append(ts, p.Type())
+	}
+	return names, ts
+}
+
 func (ex *Exec) callStaticBind(fr *Frame, st *State, fn *ssa.Function, args []Val, bind []Val, pos token.Pos, sig *types.Signature) []Outcome {
 	key := funcKey(fn)
 	fsig := fn.Signature
+	{
+		ns, ts := fnParamInfo(fn)
+		ex.checkAsserts(fr, st, key, ns, ts, args, pos)
+	}
 	// synthetic wrappers: bound method closures and thunks
 	if fn.Synthetic != "" && strings.HasPrefix(fn.Synthetic, "bound method wrapper") && len(bind) == 1 {
 		// $bound: call the method with the bound receiver
@@ -124,7 +191,12 @@ func (ex *Exec) callStaticBind(fr *Frame, st *State, fn *ssa.Function, args []Va
 			}
 		}
 	}
-	if c := ex.activeContract(key); c != nil && !(fr.depth == 0 && false) {
+	if !isRepoFunc(fn) {
+		if r, ok := ex.intrinsic(fr, st, key, args, fsig, pos); ok {
+			return r
+		}
+	}
+	if c := ex.activeContract(key); c != nil && !c.Flags["inline"] {
 		// rule 1: by contract, the body is not looked at
 		var obj *types.Func
 		if o, ok := fn.Object().(*types.Func); ok {
@@ -235,6 +307,7 @@ var pureFuncs = map[string]bool{
 	"strings.ToUpper": true, "strings.Count": true, "strings.Repeat": true, "strings.SplitN": true, "unicode/utf8.ValidString": true,
 	"(time.Time).After": true, "(time.Time).Before": true, "(time.Time).Sub": true, "(time.Time).Add": true, "(time.Time).IsZero": true,
 	"(time.Duration).Milliseconds": true, "(time.Duration).Seconds": true, "(time.Duration).String": true, "(time.Time).UnixNano": true,
+	"os.IsTimeout": true, "os.IsExist": true, "os.IsNotExist": true, "os.IsPermission": true, "errors.Unwrap": true,
 	"time.Parse": true, "net/http.ParseTime": true, "(time.Time).Equal": true, "(time.Time).Unix": true,
 }
 
